@@ -39,6 +39,14 @@ def gen(ctx):
             off = float(2 ** 27)  # large common offset, small spread: still exact when differences are taken first
             dm["matrix"] = [[x + off for x in row] for row in dm["matrix"]]
             dm["int_matrix"] = False
+        if rng.random() < 0.1:
+            nd = M.narrow_int_variant(rng, dm)
+            # forced dominating pair: the second row is the first one worsened on one criterion
+            if len(nd["matrix"]) > 1:
+                j = rng.randrange(len(nd["objectives"]))
+                nd["matrix"][1] = list(nd["matrix"][0])
+                nd["matrix"][1][j] = nd["matrix"][0][j] - 1 if nd["objectives"][j] == 1 else nd["matrix"][0][j] + 1
+            dm = nd
         cases.append({"spec": spec, "dm": dm})
     return cases
 
